@@ -1265,13 +1265,13 @@ def mon_C14(rng, budget, tier):
         other["beta"] = st["beta"] * rng.choice([0.5, 2.0, 3.0])
         m2 = make_model(kind, other)
         for h in hist:
-            before = dict(m.__dict__)
+            before = impl.snapshot(m)
             try:
                 _do_call(m2, kind, h)
             except Exception:  # noqa: BLE001
                 pass
             _do_call(m, kind, h)
-            after = dict(m.__dict__)
+            after = impl.snapshot(m)
             case = {"clause": "state", "kind": kind, "st": st, "call": h}
             mon.case(case)
             if set(before) != set(after) or any(before[k] is not after[k] and before[k] != after[k] for k in before):
